@@ -24,6 +24,8 @@ func init() {
 
 func runC12(p *eng.Prog, r *eng.Report, tier string) {
 	c := &cx{p, r, tier}
+	streamInfoResetOnlyOnRestart(c, "C12.18")
+	c12UpdateAddrStores(c, "C12.19")
 	jidEqualRule(c, "C12.8")
 	c12HeaderBufferPerCall(c, "C12.10")
 	c.r.Floor("C12.9", "fmt.Errorf and errors.New calls examined in xmpp, stream, internal/stream, internal/decl", errorsKeepIdentity(c, "C12.9", []string{"", "stream", "internal/stream", "internal/decl"}), 30)
@@ -1009,4 +1011,48 @@ func c12BindReplyIDFirst(c *cx, id string) {
 		}
 	}
 	c.r.Floor(id, "conclusions drawn from the bind reply", n, 2)
+}
+
+// c12UpdateAddrStores (C12.19): resource binding reports the address the
+// server assigned by calling Session.UpdateAddr and (like every caller in the
+// module) does not look at the result. UpdateAddr refuses only an established
+// session: from the edge on which the Ready bit is not set, every return has
+// passed the stores of the new address into in.Info.To and out.Info.From, and
+// it answers true. A second reason to refuse ("another domain", "no
+// resourcepart") makes bind succeed while LocalAddr keeps the old address.
+func c12UpdateAddrStores(c *cx, id string) {
+	f := c.fn(id, "", "(*Session).UpdateAddr")
+	if f == nil {
+		return
+	}
+	g := f.Graph()
+	edges := append(g.EdgesMatching("!all(recv.state,xmpp.Ready)"), g.EdgesMatching("!all(xmpp.Session.State[recv](),xmpp.Ready)")...)
+	c.r.Floor(id, "tests of the Ready bit in UpdateAddr", len(edges), 1)
+	n := 0
+	for _, ce := range edges {
+		from := g.EdgeTarget(ce.E)
+		for _, rs := range returnsFrom(f, from, nil) {
+			n++
+			rp, _ := g.Where(rs)
+			for _, cls := range []string{"recv.in.Info.To", "recv.out.Info.From"} {
+				cls := cls
+				isStore := func(q eng.Point, nd ast.Node) bool {
+					as, ok := nd.(*ast.AssignStmt)
+					if !ok || as.Tok != token.ASSIGN || len(as.Lhs) != len(as.Rhs) {
+						return false
+					}
+					for i, l := range as.Lhs {
+						if f.Norm(l, nil) == cls && f.Norm(as.Rhs[i], nil) == "p0" {
+							return true
+						}
+					}
+					return false
+				}
+				c.r.Check(id, f, "return of UpdateAddr on a session that is not ready ["+cls+"]", "O: every path from the not-ready edge to a return stores the parameter into "+cls, rs.Pos(), g.MustPassBefore(from, rp, isStore, nil), "UpdateAddr can return without the store although the session is not established: bind succeeds and the session keeps reporting its old address")
+			}
+			okv := len(rs.Results) == 1 && f.Norm(rs.Results[0], &rp) == "true"
+			c.r.Check(id, f, "return of UpdateAddr on a session that is not ready [value]", "K: true", rs.Pos(), okv, "the update is reported as refused")
+		}
+	}
+	c.r.Floor(id, "returns of UpdateAddr behind the not-ready edge", n, 1)
 }
